@@ -184,6 +184,7 @@ class In({base}):
     al: int = field(default=3, metadata=field_options(alias='AL'))
     raw: bytes = b'xy'
 {cfg}
+type Tree = In | list[Tree]
 @dataclass
 class Node({base}):
     v: int = 0
@@ -201,6 +202,7 @@ class P({base}):
     o: Optional[str] = None
     ints: List[int] = field(default_factory=list)
     pl: Pl = field(default_factory=Pl)
+    tree: Tree = field(default_factory=list)
 {lazy_cfg}
 @dataclass
 class C(P):
@@ -215,7 +217,8 @@ def mkval(mod, cls, r):
     import datetime
     D = datetime.date
     if cls == "P":
-        return mod.P(r.randint(0, 5), D(2010, 1, r.randint(1, 28)), mod.NT(2, "t"), mod.In(o=r.choice([None, 4])), [mod.In()], r.choice([None, "q"]), [1, 2])
+        return mod.P(r.randint(0, 5), D(2010, 1, r.randint(1, 28)), mod.NT(2, "t"), mod.In(o=r.choice([None, 4])), [mod.In()], r.choice([None, "q"]), [1, 2],
+                     tree=r.choice([[], mod.In(D(2016, 1, 1)), [mod.In(D(2017, 1, 1)), [mod.In(D(2018, 1, 1)), []]]]))
     if cls == "C":
         node = r.choice([None, mod.Node(1, D(2015, 5, 5), mod.Node(2, None, None, [mod.Node(3, D(2016, 6, 6))]), [mod.Node(4)])])
         return mod.C(r.randint(0, 5), y=D(2011, 1, 1), al2=r.choice([None, D(2012, 1, 1)]), node=node)
